@@ -50,9 +50,17 @@ def run_plan(plan):
         kind = op["op"]
         s.logical["ops"] += 1
         if kind == "solve":
-            res = s.call_solver(op["knobs"], op.get("start", "cold"), op.get("w0"),
+            start_, w0_, raw_ = op.get("start", "cold"), op.get("w0"), bool(op.get("raw_w0"))
+            if op.get("bump") is not None and s.w is not None and s.fit_intercept(op["knobs"]) \
+                    and np.shape(s.w)[0] == s.p_s + 1:
+                # the surviving solution with its intercept(s) edited by the user: a start point
+                w0_ = np.array(s.w, dtype=float, copy=True)
+                b_ = np.asarray(op["bump"], dtype=float)
+                w0_[s.p_s] = w0_[s.p_s] + (b_[:w0_.shape[1]] if w0_.ndim == 2 else b_[0])
+                start_, raw_ = "point", True
+            res = s.call_solver(op["knobs"], start_, w0_,
                                 op.get("faults"), op.get("storage", plan.get("storage", "F")),
-                                raw_w0=bool(op.get("raw_w0")))
+                                raw_w0=raw_)
             res["faults"] = op.get("faults")
             ctx = dict(warm=res["start"] in ("buffers", "point"), degenerate=degenerate, check=check)
             tag(J.judge_result(res, ctx), i)
